@@ -25,6 +25,21 @@ func LatestIndexTerm(dir string) (uint64, uint64, error) {
 	return newest.raftMeta.Index, newest.raftMeta.Term, nil
 }
 
+// LatestID returns the ID of the most recent snapshot in the given directory.
+// If no snapshots are found, it returns the empty string.
+func LatestID(dir string) (string, error) {
+	cat := &SnapshotCatalog{}
+	sset, err := cat.Scan(dir)
+	if err != nil {
+		return "", err
+	}
+	newest, ok := sset.Newest()
+	if !ok {
+		return "", nil
+	}
+	return newest.raftMeta.ID, nil
+}
+
 // StateReader represents a snapshot of the database state.
 type StateReader struct {
 	rc     io.ReadCloser
